@@ -31,6 +31,7 @@ EXPLANATION = (
     "acquire and release are not covered (the property speaks about calls that return).")
 EXPLANATION += (' R-C13-4: the acquire helper gives placeholders exactly to the level names that are None (identity test, not truthiness), the release helper resets exactly the placeholders, and where an aligned pair is re-ordered both results are re-ordered to the canonical level order.')
 EXPLANATION += (" R-C13-5: the index cache gives every level its own range of integer codes (position in the level's key table plus a cumulative per-level offset) and the decoding subtracts exactly that offset; bare positions would let the re-coded indices of operands with different level names or orders compare equal, in which case align() returns them un-aligned.")
+EXPLANATION += (" R-C13-5 also requires every path of a code helper to look the keys up in the level's key table (no positional shortcut). R-C13-6: the frame-to-frame path returns fresh objects: its return summary (effect analysis) contains no alias or view of an operand.")
 ASSUMPTIONS = [
     "pandas align/join return both operands unchanged when their indices compare equal, and Index.equals ignores level names",
     "pandas methods without inplace=True return new objects (align, join, reorder_levels, groupby().first(), iloc)",
@@ -286,6 +287,29 @@ def run(ctx):
     _positive_example(ctx)
     ctx.attempt(lambda c: _r4(c, acquire, release))
     ctx.attempt(lambda c: _r5(c, cache))
+    ctx.attempt(lambda c: _r6(c, eff))
+
+
+def _r6(ctx, eff):
+    """Broadcasting two indexed operands returns NEW objects: neither result may be (an alias or view of) an operand, otherwise a
+    caller that edits the result - LoadCollective.scale/shift do - edits the user's data (effect analysis: the return summary
+    of the frame-to-frame path contains no operand)."""
+    prog = ctx.prog
+    ctx.rule("R-C13-6", floor=1, what="the frame-to-frame path returns fresh objects, never the operands themselves")
+    f = prog.func(MOD + ":Broadcaster._broadcast_frame_to_frame")
+    summ = eff.summary(f)
+    if summ is None:
+        raise AnalysisError("no effect summary for _broadcast_frame_to_frame")
+    bad = sorted({(o, m) for o, m in summ["returns"] if o[0] in ("param", "elem") or o == ("self", "_obj")})
+    if not bad:
+        ctx.holds(f, f.node, "no return value of the frame-to-frame path aliases an operand")
+    else:
+        rets = [x for x in walk_function(f.node) if isinstance(x, ast.Return) and x.value is not None]
+        site = next((r_ for r_ in rets if any((isinstance(n, ast.Name) and n.id in f.params) or is_self_attr(n, "_obj")
+                                             for n in ast.walk(r_.value))), rets[0] if rets else f.node)
+        ctx.violated(f, site, "the frame-to-frame path can return an operand itself (%s): callers that write into the result "
+                     "(scale, shift) then modify the user's object, and a second identical call gives another answer" %
+                     ", ".join("%s (%s)" % ("/".join(map(str, o)), m) for o, m in bad), text="operand returned")
 
 
 def _r5(ctx, cache):
@@ -322,10 +346,33 @@ def _r5(ctx, cache):
             return expr.right.value.attr, level_key(expr.right)
         return None
     tables = set()
-    for f, c in enc:
+
+    def encode_sites():
+        """(function, expression that is the code of a level) - an encode call, or the call of a helper that returns one"""
+        out = []
+        for f, c in enc:
+            par = c._parent
+            if isinstance(par, ast.Return) and f.name != "__init__":
+                # helper returning the codes: every return of the helper must be a key-table lookup, and the sites are its calls
+                for r_ in [x for x in walk_function(f.node) if isinstance(x, ast.Return) and x.value is not None]:
+                    if not (isinstance(r_.value, ast.Call) and isinstance(r_.value.func, ast.Attribute) and
+                            r_.value.func.attr in ("get_indexer_for", "get_indexer")):
+                        ctx.violated(f, r_, "%s returns %s as level codes on some path instead of looking the keys up in the level's "
+                                     "key table: codes assigned by position pair values with the wrong keys whenever an operand "
+                                     "lists the keys in another order" % (f.name, norm_text(r_.value)), text="codes not from lookup")
+                for name2, fs2 in ci.methods.items():
+                    g = fs2[-1]
+                    for c2 in calls_in(g.node):
+                        if isinstance(c2.func, ast.Attribute) and is_self_attr(c2.func) and c2.func.attr == f.name:
+                            lvl = norm_text(c2.args[0]) if c2.args else None
+                            out.append((g, c2, lvl))
+            else:
+                lvl = level_key(c.func.value) if isinstance(c.func.value, ast.Subscript) else None
+                out.append((f, c, lvl))
+        return out
+    for f, c, lvl in encode_sites():
         par = c._parent
         got = offset_term(par, ast.Add) if isinstance(par, ast.BinOp) and par.left is c else None
-        lvl = level_key(c.func.value) if isinstance(c.func.value, ast.Subscript) else None
         if got and got[1] == lvl:
             tables.add(got[0])
             ctx.holds(f, c, "%s: code = position in the level's key table + self.%s[%s] (per-level offset)" % (f.name, got[0], lvl))
@@ -333,7 +380,7 @@ def _r5(ctx, cache):
             ctx.violated(f, c, "%s: level keys are re-coded as bare positions %s; the codes of differently named levels share the "
                          "range 0..n-1, so the re-coded indices of operands with different level names or orders (e.g. (A,B) "
                          "against (B,C) with equally sized levels) compare equal and align() returns them un-aligned" %
-                         (f.name, norm_text(c)), text="bare positions " + f.name + " " + norm_text(c.args[0])[:40] if c.args else f.name)
+                         (f.name, norm_text(c)), text="bare positions " + f.name + " " + (norm_text(c.args[0])[:40] if c.args else ""))
     for f, n in dec:
         got = offset_term(n.slice, ast.Sub)
         lvl = level_key(n.value)
@@ -461,6 +508,42 @@ F2F = "Broadcaster._broadcast_frame_to_frame"
 
 def variants():
     out = []
+
+    def identity_fast_path(tree):
+        f = find_func(tree, F2F)
+        i = next(k for k, st in enumerate(f.body) if not isinstance(st, ast.FunctionDef) and
+                 not (isinstance(st, ast.Expr) and isinstance(st.value, ast.Constant)))
+        f.body.insert(i, parse_stmt("if parameter.index is self._obj.index and len(droplevel) == 0:\n    return parameter, self._obj"))
+        return True
+    out.append(witness("fast path returns the operands themselves", PATH, identity_fast_path, "R-C13-6"))
+
+    def positional_codes(tree):
+        f = find_func(tree, "_IndexLevelCache._make_new_index")
+        cls = f._parent
+        cls.body.append(parse_stmt("def _level_codes(self, name, values):\n    level = self.index_levels[name]\n"
+                                   "    if values.is_unique and len(values) == len(level):\n        return np.arange(len(level))\n"
+                                   "    return level.get_indexer_for(values)"))
+        n = 0
+        for c in list(ast.walk(f)):
+            if isinstance(c, ast.Call) and isinstance(c.func, ast.Attribute) and c.func.attr == "get_indexer_for":
+                lvl = ast.unparse(c.func.value.slice)
+                replace_node(c, ast.parse("self._level_codes(%s, %s)" % (lvl, ast.unparse(c.args[0])), mode="eval").body)
+                n += 1
+        return n == 2
+    out.append(witness("level codes taken by position when the keys are unique", PATH, positional_codes, "R-C13-5"))
+
+    def codes_helper(tree):
+        f = find_func(tree, "_IndexLevelCache._make_new_index")
+        cls = f._parent
+        cls.body.append(parse_stmt("def _level_codes(self, name, values):\n    return self.index_levels[name].get_indexer_for(values)"))
+        n = 0
+        for c in list(ast.walk(f)):
+            if isinstance(c, ast.Call) and isinstance(c.func, ast.Attribute) and c.func.attr == "get_indexer_for":
+                lvl = ast.unparse(c.func.value.slice)
+                replace_node(c, ast.parse("self._level_codes(%s, %s)" % (lvl, ast.unparse(c.args[0])), mode="eval").body)
+                n += 1
+        return n == 2
+    out.append(twin("key-table lookup moved into a helper, offsets added by the caller", PATH, codes_helper))
 
     def bare_positions(tree):
         f = find_func(tree, "_IndexLevelCache._make_new_index")
